@@ -31,6 +31,9 @@ func c30Check(c c30Case, r *evid.Rec) []evid.Disc {
 			if !got && len(c.S) >= 4 && strings.EqualFold(c.S[:4], "$SYS") && c.S[:4] != "$SYS" && !strings.ContainsAny(c.S, "+#") {
 				sig = "C30-topic-rejects-case-variant-of-$SYS"
 			}
+			if ls := reftopic.Levels(c.S); !got && strings.EqualFold(ls[0], "$share") && !strings.ContainsAny(c.S, "+#") {
+				sig = "C30-topic-rejects-case-variant-of-$share"
+			}
 			return []evid.Disc{evid.D(sig, "IsValidFilter(%q, forPublish) = %v, reference %v", c.S, got, want)}
 		}
 		return nil
